@@ -1888,6 +1888,7 @@ package dig
 //@   allocates plain
 //@   site call (*dig.Scope).getAllProviders #1: assert[C05:value-providers-looked-up-under-type-and-name,C09:value-providers-looked-up-under-type-and-name] $recv == s && $arg0 == vkey(t, name)
 //@   ensures[C05:value-providers-are-all-visible-providers] r == ret(getAllProviders_1, 0)
+//@   ensures[C08:value-providers-come-from-the-scope-and-its-ancestors,C04:value-providers-come-from-the-scope-and-its-ancestors] (len(r) == 0) == (forall i int :: 0 <= i && i < s.nanc ==> len(s.anc[i].providers[vkey(t, name)]) == 0)
 //@   ensures forall j int :: 0 <= j && j < len(r) ==> r[j] != nil
 
 //@ func (s *Scope) getAllGroupProviders(name, t) (r)
@@ -1895,6 +1896,7 @@ package dig
 //@   allocates plain
 //@   site call (*dig.Scope).getAllProviders #1: assert[C05:group-providers-looked-up-under-type-and-group,C10:group-providers-looked-up-under-type-and-group] $recv == s && $arg0 == gkey(t, name)
 //@   ensures[C05:group-providers-are-all-visible-providers] r == ret(getAllProviders_1, 0)
+//@   ensures[C08:group-providers-come-from-the-scope-and-its-ancestors,C10:group-providers-come-from-the-scope-and-its-ancestors] (len(r) == 0) == (forall i int :: 0 <= i && i < s.nanc ==> len(s.anc[i].providers[gkey(t, name)]) == 0)
 //@   ensures forall j int :: 0 <= j && j < len(r) ==> r[j] != nil
 
 //@ func getParamOrder(gh, p) (orders)
